@@ -63,6 +63,8 @@ class Profile:
         observe=True,
         late_allocs=False,
         phi_liveout=False,
+        distinct_cjmp_targets=False,
+        obs_type=None,
         forbidden=(),
     ):
         self.__dict__.update(locals())
@@ -284,6 +286,12 @@ class _FuncGen:
                     t2 = draw(st.integers(1, last))
                     succs.append([t1, t2])
                     kinds.append("cjmp")
+        if prof.distinct_cjmp_targets:
+            # no 'cjmp a ? B : B' (consumers that reject a conditional jump whose arms coincide)
+            for b in range(nblocks):
+                if kinds[b] == "cjmp" and succs[b][0] == succs[b][1]:
+                    succs[b] = [succs[b][0]]
+                    kinds[b] = "jmp"
         # make sure some return is reachable on the forward path: the last block returns
         if kinds[last] != "ret":
             # last has no children by construction (children have larger index)
@@ -676,6 +684,8 @@ class _FuncGen:
         if not ints or ty == "ptr":
             return
         acc_ty = "u64" if "u64" in ints else ("u32" if "u32" in ints else ints[0])
+        if self.prof.obs_type:
+            acc_ty = self.prof.obs_type  # accumulator type chosen by the consumer (must be one of its integer types)
         g = self.mod.obs_global(acc_ty)
         if is_float(ty):
             # keep the bits: store the float into the float slot of the accumulator object
@@ -851,7 +861,11 @@ class _FuncGen:
             args = [dec]
             ok = True
             for pn, pty in fn["params"][1:]:
-                args.append(pn)
+                if pty != "ptr" and self.chance(50):
+                    # not forwarded: the parameter may then be completely unused
+                    args.append(self.new_const(pty, {}, pre))
+                else:
+                    args.append(pn)
             r = self.fresh("r")
             last["ins"] = last["ins"][:-1] + pre + [["call", r, ret, name, args], ["ret", r]]
         # phis in old entry cannot exist (entry has no phis); but old entry now has a predecessor `e`
